@@ -118,22 +118,23 @@ def io_document(g):
 
 
 def trig_blocks(text):
-    """(header lines, sorted graph blocks) of rdflib's TriG output"""
-    header, blocks, cur = [], [], None
-    for line in text.split("\n"):
-        if cur is None:
-            if line.endswith("{") and not line.startswith(" "):
-                cur = [line]
-            elif line.strip():
-                header.append(line)
-        else:
-            cur.append(line)
-            if line == "}":
-                blocks.append("\n".join(cur))
-                cur = None
-    if cur is not None:
-        blocks.append("\n".join(cur))
-    return header, sorted(blocks)
+    """canonical content of rdflib's TriG output: (sorted prefix header lines, canonical quads of the parsed dataset).
+    rdflib writes the graphs, and the subjects inside a graph, in an order that is not a function of the content
+    (known finding C16-1); what must agree between two outputs is the header and the dataset they denote."""
+    import logging
+    import warnings
+    from rdflib.graph import ConjunctiveGraph
+    from .. import rdfgraph
+    header = sorted(l for l in text.split("\n") if l.startswith("@prefix") or l.startswith("@base"))
+    g = ConjunctiveGraph()
+    logging.disable(logging.CRITICAL)
+    try:
+        with warnings.catch_warnings():
+            warnings.simplefilter("ignore")
+            g.parse(data=text, format="trig")
+    finally:
+        logging.disable(logging.NOTSET)
+    return header, rdfgraph.canon_quads(rdfgraph.quads_of(g))
 
 
 def c14n(data):
@@ -239,7 +240,7 @@ def one_document(ctx, doc, fmts, scratch, fails, model_ops, pending, doc_id):
                 if text != ref_text:
                     h, b = trig_blocks(text)
                     if (h, b) == (ref_h, ref_b):
-                        fails.append(Failure("oracle", KNOWN["trig-graph-block-order"], "TriG graph blocks written in a different order", dict(case0, dest=dest)))
+                        fails.append(Failure("oracle", KNOWN["trig-graph-block-order"], "TriG text differs only in the order of graphs / subjects", dict(case0, dest=dest)))
                     else:
                         fails.append(Failure("oracle", None, "destination kind %s received different RDF text than the returned string" % dest, dict(case0, dest=dest)))
         else:  # xml: text targets agree, binary targets agree, and both parse identically
